@@ -55,7 +55,8 @@ Definition onset_times (m : list Q) : list Q := onsets_from 0%Q m.
 
 Definition mel_augment (m : list Q) (k : Q) : list Q := map (fun d => note_augment d k) m.
 Definition mel_set_duration (m : list Q) (d : Q) : option (list Q) :=
-  if Qeq_bool (mel_dur m) 0 then None            (* ZeroDivisionError *)
+  if Qeq_bool d 0 then Some (mel_augment m 0)    (* set_duration(0) is augment(0), whatever the melody lasts *)
+  else if Qeq_bool (mel_dur m) 0 then None       (* ZeroDivisionError: a melody of length 0 cannot be stretched *)
   else Some (mel_augment m (d / mel_dur m)%Q).
 
 (* ---- Note.decompose_duration ---- *)
